@@ -1,6 +1,6 @@
 # C07 - coroutine mutex: mutual exclusion and exactly-once grant
 import re
-from ..core import norm, relloc, live, calls, evs, Broken, value_origin, Tracer, fmt_trace, rooted, has_back_edge, tests, cond_event
+from ..core import efield, norm, relloc, live, calls, evs, Broken, value_origin, Tracer, fmt_trace, rooted, has_back_edge, tests, cond_event
 from .. import atomic, publish, witness
 from ..rules import *
 
@@ -25,6 +25,9 @@ def run(ctx, db, tier):
     build_queue(ctx, db, 'C07.build-queue')
     private_fifo(ctx, db, 'C07.private-fifo')
     release_once(ctx, db, 'C07.release-once')
+    ownership_unique(ctx, db, 'C07.ownership-unique')
+    from . import C02
+    C02.sync_waits(ctx, db, 'C07.blocking-lock-waits')
     atomic.check_roles(ctx, db, 'C07.acquire-release', only_functions={'cocls::mutex::ready', 'cocls::mutex::unlock', 'cocls::mutex::build_queue', 'cocls::awaiter::subscribe'}, floor=4)
     if ctx.cfg == 'assert':
         witness.positive(ctx, 'C07.types', 'C07_pos.cpp', 'mutex is neither copyable nor movable; ownership is move-only and owns through unique_ptr with the unlocking deleter')
@@ -244,3 +247,38 @@ def release_once(ctx, db, rid):
     for f in _one(db, 'cocls::mutex::ownership_deleter::operator()'):
         n = sum(1 for e in f.events() if e.k == 'call' and norm(e.get('callee')) == 'cocls::mutex::unlock')
         ctx.ob(rid, f, f['key'], n == 1 and not has_back_edge(f), 'the deleter unlocks exactly once', desc='ownership_deleter does not unlock exactly once')
+
+
+OWN_PTR = 'cocls::mutex::ownership::_ptr'
+
+
+def ownership_unique(ctx, db, rid):
+    """the unique_ptr inside mutex::ownership is the ownership: taking the pointer out without using it forgets the mutex locked forever,
+    copying it out with get() into another owner makes two owners (two unlocks)"""
+    ctx.rule(rid, 'WHO+DATAFLOW', 'uses of mutex::ownership::_ptr anywhere in the library: the result of _ptr.release() is never discarded (the mutex would stay locked forever); '
+             'no owner is (re)seated from a pointer obtained by get() (two ownership objects would unlock the same mutex)', floor=1)
+    n = 0
+    seen = set()
+    for f in db.all_instances():
+        for e in f.events():
+            if e.k != 'call':
+                continue
+            fld = norm(e.get('field') or '') or efield(f, e)
+            if fld != OWN_PTR:
+                continue
+            c = norm(e.get('callee') or '')
+            k = (f['key'], e['loc'], c)
+            if k in seen:
+                continue
+            seen.add(k)
+            if c == 'std::unique_ptr::release':
+                n += 1
+                ctx.ob(rid, f, e['loc'], e.get('use') != 'discard', 'the pointer taken out of the ownership by release() is used (unlocked or handed on)', desc='ownership pointer released and discarded')
+            elif c in ('std::unique_ptr::reset', 'std::unique_ptr::operator='):
+                n += 1
+                a = (e.get('args') or [{}])[0]
+                o = value_origin(f, f.ev(a['ev'])) if a.get('ev') is not None and f.ev(a['ev']) is not None else value_origin(f, a.get('path'))
+                bad = (o is not None and o.k == 'call' and norm(o.get('callee') or '') == 'std::unique_ptr::get') or '::get)' in (a.get('path') or '')
+                ctx.ob(rid, f, e['loc'], not bad, 'an ownership is re-seated only from a pointer that left its previous owner', desc='ownership re-seated from get(): two owners')
+    if n == 0:
+        raise Broken('no use of mutex::ownership::_ptr found: anchor changed')
